@@ -73,6 +73,10 @@ pub struct Shared {
     pub rcfg: RandomCfg,
     pub in_user_write: bool,
     pub eof_reads: usize,
+    // scripted queueing transport (the websocket write path): bytes accepted by poll_write while the socket is blocked
+    pub wsq: bool,
+    pub blocked: bool,
+    pub queue: Vec<u8>,
 }
 
 /// the transient errors a socket read can report (never Interrupted: retrying that one is legitimate); a blocking socket
@@ -115,6 +119,9 @@ impl Shared {
             rcfg,
             in_user_write: false,
             eof_reads: 0,
+            wsq: false,
+            blocked: false,
+            queue: Vec::new(),
         }
     }
 
@@ -184,6 +191,17 @@ impl Shared {
             },
             "close" => {
                 self.eof = true;
+                true
+            },
+            // websocket behaviours on the scripted queueing transport: message boundaries do not matter to the connection;
+            // the socket stops / resumes accepting data
+            "wsmsg" => true,
+            "wsblock" => {
+                self.blocked = true;
+                true
+            },
+            "wsunblock" => {
+                self.blocked = false;
                 true
             },
             "sendp" => {
@@ -297,6 +315,11 @@ impl Shared {
                 return Err(io::Error::new(io::ErrorKind::Other, "conformance-abort"));
             },
         };
+        if self.wsq && self.blocked {
+            // like the websocket library: the message is queued, nothing leaves until a flush finds the socket ready
+            self.queue.extend_from_slice(buf);
+            return Ok(buf.len());
+        }
         match st.a.as_str() {
             "pongw" | "wacc" => {
                 let k = st.n as usize;
@@ -346,6 +369,80 @@ impl Shared {
                 Err(io::Error::new(io::ErrorKind::Other, "conformance-abort"))
             },
         }
+    }
+
+    /// poll_flush of the scripted queueing transport: Pending while the socket is blocked (the model's "pend w" or a
+    /// cancellation), otherwise everything queued leaves - which is when the model's transport accepts those frames
+    fn scripted_flush(&mut self) -> io::Result<()> {
+        if !self.wsq || self.mismatch.is_some() || self.skipped.is_some() {
+            return Ok(());
+        }
+        if self.queue.is_empty() && !self.blocked {
+            return Ok(());
+        }
+        let st = match self.next_io_step() {
+            Some(s) => s,
+            None => {
+                if self.queue.is_empty() {
+                    return Ok(());
+                }
+                self.fail("the code flushes queued bytes after the model's behaviour ended".into());
+                return Err(io::Error::new(io::ErrorKind::Other, "conformance-abort"));
+            },
+        };
+        if self.blocked {
+            if self.queue.is_empty() {
+                return Ok(());
+            }
+            return match st.a.as_str() {
+                "pend" if st.s == "w" => {
+                    self.i += 1;
+                    Err(io::Error::new(io::ErrorKind::WouldBlock, "pending"))
+                },
+                "cancel" => Err(io::Error::new(io::ErrorKind::WouldBlock, "pending")),
+                other => {
+                    self.fail(format!("the code waits for the blocked socket where the model's next step is {other}({},{}) [step {}]", st.n, st.s, self.i));
+                    Err(io::Error::new(io::ErrorKind::Other, "conformance-abort"))
+                },
+            };
+        }
+        // not blocked: the queued frames leave now, one model step per frame
+        while !self.queue.is_empty() {
+            let st = match self.next_io_step() {
+                Some(s) => s,
+                None => {
+                    self.fail("queued bytes leave after the model's behaviour ended".into());
+                    return Err(io::Error::new(io::ErrorKind::Other, "conformance-abort"));
+                },
+            };
+            if st.a == "pend" && st.s == "w" {
+                // the transport is not ready for another reason: the queued bytes stay queued
+                self.i += 1;
+                return Err(io::Error::new(io::ErrorKind::WouldBlock, "pending"));
+            }
+            if st.a == "cancel" {
+                return Err(io::Error::new(io::ErrorKind::WouldBlock, "pending"));
+            }
+            if st.a != "pongw" && st.a != "wacc" {
+                self.fail(format!("queued bytes {:?} leave where the model's next step is {}({},{}) [step {}]", self.queue, st.a, st.n, st.s, self.i));
+                return Err(io::Error::new(io::ErrorKind::Other, "conformance-abort"));
+            }
+            let k = (st.n as usize).min(self.queue.len());
+            let bytes: Vec<u8> = self.queue.drain(..k).collect();
+            let was = self.blocked;
+            self.blocked = false;
+            let r = self.scripted_write(&bytes, true);
+            self.blocked = was;
+            match r {
+                Ok(n) if n == bytes.len() => {},
+                Ok(_) => {
+                    self.fail("harness: queued frame only partly accepted".into());
+                    return Err(io::Error::new(io::ErrorKind::Other, "conformance-abort"));
+                },
+                Err(e) => return Err(e),
+            }
+        }
+        Ok(())
     }
 
     // ---------------------------------------------------------------- random (trace mode)
@@ -569,7 +666,15 @@ impl AsyncWrite for AsyncTransport {
         }
     }
     fn poll_flush(self: Pin<&mut Self>, _cx: &mut Context<'_>) -> Poll<io::Result<()>> {
-        Poll::Ready(Ok(()))
+        let mut s = self.0.lock().unwrap();
+        if !s.scripted {
+            return Poll::Ready(Ok(()));
+        }
+        match s.scripted_flush() {
+            Ok(()) => Poll::Ready(Ok(())),
+            Err(e) if e.kind() == io::ErrorKind::WouldBlock => Poll::Pending,
+            Err(e) => Poll::Ready(Err(e)),
+        }
     }
     fn poll_shutdown(self: Pin<&mut Self>, _cx: &mut Context<'_>) -> Poll<io::Result<()>> {
         Poll::Ready(Ok(()))
@@ -791,6 +896,11 @@ pub fn replay_blocking(pool: Arc<Pool>, verify: bool, steps: Vec<Step>, seed: u6
 }
 
 pub fn replay_tokio(pool: Arc<Pool>, verify: bool, steps: Vec<Step>, seed: u64) -> ReplayVerdict {
+    replay_tokio_on(pool, verify, steps, seed, false)
+}
+
+/// wsq = true: the scripted transport queues writes like the websocket adaptor (see Shared::scripted_flush)
+pub fn replay_tokio_on(pool: Arc<Pool>, verify: bool, steps: Vec<Step>, seed: u64, wsq: bool) -> ReplayVerdict {
     use std::future::Future;
 
     use insim::net::{tokio_impl::Framed, Codec};
@@ -798,6 +908,7 @@ pub fn replay_tokio(pool: Arc<Pool>, verify: bool, steps: Vec<Step>, seed: u64) 
     rt.block_on(async move {
         let mode = pool.mode.clone();
         let sh = Arc::new(Mutex::new(Shared::new(&mode, pool.clone(), true, steps.clone(), seed, nocfg())));
+        sh.lock().unwrap().wsq = wsq;
         let mut framed = Framed::new(Box::new(AsyncTransport(sh.clone())), Codec::new(crate::frames::mode_of(&mode)));
         framed.verify_version(verify);
         let waker = futures_util::task::noop_waker();
